@@ -4,8 +4,12 @@
      X <a>            two arrays / two objects holding the SAME node a
      C <a> <mut>      deep copy, comparisons, dumps, address sets, serializations
                       (text not modelled: '?', identity '='), mutation probes, destruction
+     H <a> <ha> <b> <hb>   both trees get a history (mutations joined by ';', '-' = none),
+                      then: equal both ways and on themselves, deep copy of a' compared
+                      with a' and with b'
    mut = <path>:<op>, path = (/i<idx> | /k<hexkey|->)*,
-   op = A<jv> | P<hexkey|->=<jv> | K<hexkey|-> | I<dec> | S<hex|-> | D<16hex>.
+   op = A<jv> | P<hexkey|->=<jv> | K<hexkey|-> | I<dec> | U<dec> | B<0|1> | S<hex|-> | D<16hex>
+      | Z<idx>=<jv> (array_put_idx) | X<idx>,<count> (array_del_idx).
    The trees are laid out in memory by [build] (one address per node, allocation order);
    equality is [nt_equal], the comparison with the pointer shortcut. *)
 open Model
@@ -47,11 +51,21 @@ let parse_mut (s : string) : step list * mutop =
              if s.[!pos] <> '=' then failwith "mut P"; incr pos; MPut (k, Jvtext.parse_jv s pos)
     | 'K' -> MDel (hexordash ())
     | 'I' -> MSetInt (z_of_string (take (fun c -> c = '-' || (c >= '0' && c <= '9'))))
+    | 'U' -> MSetUint (z_of_string (take (fun c -> c >= '0' && c <= '9')))
+    | 'B' -> MSetBool (take (fun c -> c = '0' || c = '1') = "1")
+    | 'Z' -> let i = z_of_string (take (fun c -> c >= '0' && c <= '9')) in
+             if s.[!pos] <> '=' then failwith "mut Z"; incr pos; MArrPut (i, Jvtext.parse_jv s pos)
+    | 'X' -> let i = z_of_string (take (fun c -> c >= '0' && c <= '9')) in
+             if s.[!pos] <> ',' then failwith "mut X"; incr pos;
+             MArrDel (i, z_of_string (take (fun c -> c >= '0' && c <= '9')))
     | 'S' -> MSetStr (hexordash ())
     | 'D' -> let h = take ishex in
              MSetDouble (List.fold_left (fun acc b -> Z.add (Z.mul acc (z_of_int 256)) b) Z0 (bytes_of_hex h))
     | _ -> failwith "mut op" in
   (List.rev !steps, op)
+
+let parse_hist (s : string) = if s = "-" then [] else List.map parse_mut (String.split_on_char ';' s)
+let oks_text l = if l = [] then "-" else String.concat "" (List.map b01 l)
 
 let inter a b = List.length (List.filter (fun x -> List.mem x b) a)
 
@@ -89,13 +103,35 @@ let run line =
            (b01 (nt_equal ta tc)) (b01 (nt_equal tc ta)) (dump a) (dump c1)
            (List.length (addrs ta)) (List.length (addrs tc)) (inter (addrs ta) (addrs tc)) in
        let mut v = match mutate_at path op v with Some v' -> ("ok", v') | None -> ("bad", v) in
+       let e x y = b01 (nt_equal x y) in
        let (r1, c1') = mut c1 in
-       let m1 = Printf.sprintf "M1 %s %s %s" r1 (dump a) (dump c1') in
-       let (tc2, _) = nt_copy ta n2 in
+       (* the mutated trees are laid out afresh: what matters to nt_equal is that the three
+          trees share no node *)
+       let (tc1', n3) = build c1' n2 in
+       let m1 = Printf.sprintf "M1 %s %s %s %s %s" r1 (dump a) (dump c1') (e ta tc1') (e tc1' ta) in
+       let (tc2, n4) = nt_copy ta n3 in
        let c2 = erase tc2 in
        let (r2, a') = mut a in
-       let m2 = Printf.sprintf "M2 %s %s %s" r2 (dump a') (dump c2) in
-       String.concat " | " [head; m1; m2; "D1 1 " ^ dump a'; "D2 1 " ^ dump c2; "live=0"])
+       let (ta', n5) = build a' n4 in
+       let m2 = Printf.sprintf "M2 %s %s %s %s %s %s" r2 (dump a') (dump c2) (e ta' tc1') (e tc1' ta') (e ta' tc2) in
+       let (tc3, _) = nt_copy ta' n5 in
+       let k = Printf.sprintf "K 0 %s %s %s" (e ta' tc3) (e tc3 ta') (dump (erase tc3)) in
+       String.concat " | " [head; m1; m2; k; "D1 1 " ^ dump a'; "D2 1 " ^ dump c2; "live=0"])
+  | ["H"; sa; sha; sb; shb] ->
+    let a = Jvtext.jv_of_string sa and b = Jvtext.jv_of_string sb in
+    let (a', oa) = run_history (parse_hist sha) a in
+    let (b', ob) = run_history (parse_hist shb) b in
+    let (ta, n1) = build a' Z0 in
+    let (tb, n2) = build b' n1 in
+    let e x y = b01 (nt_equal x y) in
+    let head = Printf.sprintf "H %s %s %s %s %s %s %s %s" (oks_text oa) (oks_text ob) (dump a') (dump b')
+        (e ta tb) (e tb ta) (e ta ta) (e tb tb) in
+    let k = match deep_copy_root a' with
+      | None -> "K -1 EINVAL"
+      | Some _ ->
+        let (tc, _) = nt_copy ta n2 in
+        Printf.sprintf "K 0 %s %s %s %d 6 %s %s" (e ta tc) (e tc ta) (dump (erase tc)) (inter (addrs ta) (addrs tc)) (e tc tb) (e tb tc) in
+    String.concat " | " [head; k; "live=0"]
   | _ -> failwith "eq line"
 
 let () = register "eq" run
